@@ -340,7 +340,11 @@ def check (c):
     if not np.isfinite (I).all () or np.abs (I).max () == 0:
         return dict (status = 'discard', reason = 'non-finite currents')
     Imax = np.abs (I).max ()
-    rep  = report.parse (common.guarded (m.currents_as_mininec, 'currents_as_mininec'))
+    # (as in a run over several frequencies, where the part of the report that does not depend on the frequency is
+    # printed first and the current table of every step after it)
+    if int (common.sha (sorted ((k, str (v)) for k, v in c.items () if k not in ('geo', 'ends', 'nodes', 'pick'))), 16) % 2:
+        common.guarded (m.frq_independent_as_mininec, 'frq_independent_as_mininec')
+    rep = report.parse (common.guarded (m.currents_as_mininec, 'currents_as_mininec'))
     tags, blocks, tag_of, members = graphs.expected_blocks (spec)
     viol = []
     mon  = {}
